@@ -54,6 +54,17 @@ Theorem C01_file_attributes : forall n, let n' := file_to_node (node_to_file n) 
 Proof. exact spdx_file_attributes. Qed.
 Print Assumptions C01_file_attributes.
 
+(* checksum maps over the 16 algorithms SPDX 2.3 spells come back unchanged, for packages and files *)
+Theorem C01_package_checksums : forall parse_time fmt_time n, spdx_hash_class (n_hashes n) ->
+  n_hashes (pkg_to_node parse_time (node_to_pkg fmt_time n)) = n_hashes n.
+Proof. exact spdx_package_hashes. Qed.
+Print Assumptions C01_package_checksums.
+
+Theorem C01_file_checksums : forall n, spdx_hash_class (n_hashes n) ->
+  n_hashes (file_to_node (node_to_file n)) = n_hashes n.
+Proof. exact spdx_file_hashes. Qed.
+Print Assumptions C01_file_checksums.
+
 (* first supplier and first originator *)
 Theorem C01_first_supplier_and_originator : forall parse_time p r,
   client_string p <> "" -> client_string p <> NOASSERTION ->
